@@ -551,6 +551,102 @@ func checkLit(c litCase) string {
 	return ""
 }
 
+// obsCase: literals that are looked at by another filter (sorted, compared,
+// added up, printed, ...) and emitted afterwards must still carry their digits.
+type obsCase struct {
+	Lits     []string `json:"lits"`
+	Observer string   `json:"observer"`
+	Form     string   `json:"form"`
+	Object   bool     `json:"object,omitempty"` // {"k0": lit0, ...} instead of [lit0, ...]
+}
+
+var observers = []string{
+	"sort", "unique", "sort_by(.)", "group_by(.)", "unique_by(.)", "min", "max", "min_by(.)", "max_by(.)", "add", "length", "tojson", "tostring",
+	"map(. + 0)", "map(-.)", "map(floor)", "map(tostring)", "map(tojson)", "map(abs)", "map(. * 1)", "reverse", "flatten", "index(.[0])", "indices(.[0])",
+	"contains([.[0]])", "inside(.)", ". - [.[0]]", "bsearch(.[0])", "any(. > 0)", "all(. > 0)", "join(\",\")", "@csv", "@tsv", "@sh", "@html", "@text", "@json",
+	"[tostream]", "[paths]", "to_entries", "first", "last", "nth(0)", ".[0] + .[1]", ".[0] < .[1]", ".[0] == .[1]", ".[0] % 7", "walk(.)", "del(.[0])",
+	".[0] = 1", ".[1:]", "[limit(1; .[])]", "map(select(. > 0))", "map(isnormal)", "map(trunc)", "map(significand)", "map(. == 1)", "[.[] | [.] | sort]",
+	"[.[] as $x | $x + $x]", "map(sqrt)", "map(round)", "[.[], .[]] | sort", "[.[], .[]] | unique", "(sort | unique | min)", "keys", "map(type)", "[.[] | numbers]",
+	"map(tostring | tonumber)", "[.[] | . as $x | [$x, $x] | max]", "map(ltrimstr(1))", "[splits(\"a\")?]", "implode?", "[.[]?] | sort | reverse", "tojson | fromjson | sort",
+	"map_values(. + 1)", "map_values(.)", "with_entries(.)?", "[..]", "[.. | numbers] | sort", "getpath([0])", "[getpath([0], [1])] | sort", "any", "all", "[range(0; length)]",
+	"add / length", "[.[] | tostring] | sort", "[.[] | tojson] | unique", "group_by(. > 0)", "[.[] | -(.)] | sort", "min_by(-.)", "[.[]] | .[0] += 1", ".[0] |= . + 1", "[.[] | floor] | add",
+}
+
+var obsForms = []string{
+	// the observer's outputs are collected, so an observer that yields nothing
+	// or fails does not change the shape of the result
+	"([try (%s) catch null] | empty), .",
+	"[[try (%s) catch null], .] | .[1]",
+	". as $x | [try (%s) catch null] | $x",
+	"[.[]?] as $c | ([try ($c | %s) catch null] | empty), .",
+	". as $x | $x | [try (%s) catch null] as $y | $x",
+	"[., [try (%s) catch null], .] | .[2]",
+	"reduce (1, 2) as $i (.; [try (%s) catch null] as $y | .)",
+	"first(([try (%s) catch null] | empty), .)",
+}
+
+func checkObs(c obsCase) string {
+	q, err := gojq.Parse(fmt.Sprintf(c.Form, c.Observer))
+	if err != nil {
+		return "bad query: " + err.Error()
+	}
+	code, err := gojq.Compile(q)
+	if err != nil {
+		return "bad query: " + err.Error()
+	}
+	var input any
+	var want strings.Builder
+	if c.Object {
+		m := map[string]any{}
+		want.WriteByte('{')
+		for i, l := range c.Lits {
+			if !json.Valid([]byte(l)) {
+				return "bad literal"
+			}
+			k := fmt.Sprintf("k%d", i)
+			m[k] = json.Number(l)
+			if i > 0 {
+				want.WriteByte(',')
+			}
+			want.WriteString("\"" + k + "\":" + l)
+		}
+		want.WriteByte('}')
+		input = m
+	} else {
+		a := make([]any, len(c.Lits))
+		want.WriteByte('[')
+		for i, l := range c.Lits {
+			if !json.Valid([]byte(l)) {
+				return "bad literal"
+			}
+			a[i] = json.Number(l)
+			if i > 0 {
+				want.WriteByte(',')
+			}
+			want.WriteString(l)
+		}
+		want.WriteByte(']')
+		input = a
+	}
+	res := run.Exec(code, input, 0, 10)
+	if res.Err != nil || len(res.Vals) != 1 {
+		return fmt.Sprintf("query %q on %s: err=%v outputs=%s", q.String(), want.String(), res.Err, univ.ShowAll(res.Vals))
+	}
+	b, err := gojq.Marshal(res.Vals[0])
+	if err != nil {
+		return "Marshal: " + err.Error()
+	}
+	if string(b) != want.String() {
+		return fmt.Sprintf("%s came out of %q as %s", want.String(), q.String(), b)
+	}
+	// and the caller's own value still holds the literals
+	b2, _ := gojq.Marshal(input)
+	if string(b2) != want.String() {
+		return fmt.Sprintf("the input %s reads %s after %q", want.String(), b2, q.String())
+	}
+	return ""
+}
+
 func genLit() *rapid.Generator[string] {
 	digits := func(t *rapid.T, label string, min, max int) string {
 		n := rapid.IntRange(min, max).Draw(t, label+"n")
@@ -812,6 +908,12 @@ func replayCase(sub string, raw json.RawMessage) string {
 			return "bad replay: " + err.Error()
 		}
 		return checkLit(c)
+	case "observed":
+		var c obsCase
+		if err := json.Unmarshal(raw, &c); err != nil {
+			return "bad replay: " + err.Error()
+		}
+		return checkObs(c)
 	case "float":
 		var c floatCase
 		if err := json.Unmarshal(raw, &c); err != nil {
@@ -976,6 +1078,42 @@ func TestC10(t *testing.T) {
 		rec.Sample(c)
 		if msg := checkLit(c); msg != "" {
 			t.Fatalf("%s", rec.Fail("literal", c, "%s", msg))
+		}
+	})
+	// literals observed by another filter before they are emitted: every
+	// observer x form on a fixed batch, then random batches
+	for oi, o := range observers {
+		for fi, f := range obsForms {
+			if !rec.Mine(oi*len(obsForms) + fi) {
+				continue
+			}
+			for _, obj := range []bool{false, true} {
+				c := obsCase{Lits: []string{"3.0", "1.50", "2e0", "-0", "1.000000000000000000001", "5e1000", "100000000000000000000", "1E2"}, Observer: o, Form: f, Object: obj}
+				rec.Eval()
+				rec.NT("obs/" + o + "/" + f + fmt.Sprint(obj))
+				rec.Class("observed/fixed")
+				if msg := checkObs(c); msg != "" {
+					rec.Direct("observed", c, "%s", msg)
+				}
+			}
+		}
+	}
+	rec.Rapid(t, "observed", rec.Scale(20000, 600000), func(t *rapid.T) {
+		n := rapid.IntRange(1, 4).Draw(t, "n")
+		c := obsCase{Observer: rapid.SampledFrom(observers).Draw(t, "observer"), Form: rapid.SampledFrom(obsForms).Draw(t, "form"), Object: rapid.IntRange(0, 3).Draw(t, "object") == 0}
+		for i := 0; i < n; i++ {
+			if rapid.IntRange(0, 2).Draw(t, "fixed") == 0 {
+				c.Lits = append(c.Lits, rapid.SampledFrom(fixedLits).Draw(t, "flit"))
+			} else {
+				c.Lits = append(c.Lits, genLit().Draw(t, "lit"))
+			}
+		}
+		rec.Eval()
+		rec.NT("obs/" + strings.Join(c.Lits, ",") + "/" + c.Observer + "/" + c.Form)
+		rec.Class("observed")
+		rec.Sample(c)
+		if msg := checkObs(c); msg != "" {
+			t.Fatalf("%s", rec.Fail("observed", c, "%s", msg))
 		}
 	})
 	rec.Rapid(t, "qlit", rec.Scale(5000, 200000), func(t *rapid.T) {
